@@ -307,3 +307,24 @@ def search_scenarios(seed, n):
             sc["faults"] = [[rnd.randrange(2, 14), rnd.choice(NONFATAL + ["FatalErr"])] for _ in range(rnd.choice([1, 1, 2]))]
         out.append(sc)
     return out
+
+
+def momentum_scenarios(seed, n):
+    """NUTS chains for the momentum clause of C04: every NUTS preset, Euclidean and ExactNormal kinetic energy,
+    dimensions 1..100, both step-size adaptation methods, warm-up crossing transformation changes."""
+    rnd = random.Random(seed)
+    out = []
+    dims = [1, 2, 3, 5, 10, 33, 100]
+    for i in range(n):
+        preset = NUTS_PRESETS[i % 3]
+        dim = dims[(i // 3) % len(dims)] if i < 3 * len(dims) else rnd.choice(dims + [0])
+        dens = rnd.choice([DENS[0], DENS[1], DENS[2], DENS[7]])
+        st = {"num_tune": rnd.choice([0, 15, 40]), "num_draws": rnd.choice([3, 10]), "maxdepth": rnd.choice([2, 4, 6]),
+              "trajectory_kind": rnd.choice(["Euclidean", "ExactNormal"]), "seed": rnd.randrange(1 << 30),
+              "adapt_options": {"step_size_settings": {"adapt_options": {"method": rnd.choice(["DualAverage", "Adam"])}}}}
+        if "flow" not in preset:
+            st["adapt_options"]["early_mass_matrix_switch_freq"] = rnd.choice([10, 3])
+            st["adapt_options"]["mass_matrix_switch_freq"] = rnd.choice([80, 10])
+        out.append({"preset": preset, "dim": dim, "density": dens, "settings": st, "seed": rnd.randrange(1 << 30),
+                    "chain": rnd.randrange(4), "init": [rnd.uniform(-1, 1) for _ in range(dim)], "momentum": True})
+    return out
